@@ -980,6 +980,25 @@ func oracleLines(stream, in string) []string {
 				if sok != dok || sv != dv {
 					verdict = fmt.Sprintf("FAIL delta-ne-sotw op=%d type=%s name=%s sotw=%v/%d delta=%v/%d", idx-1, t, n, sok, sv, dok, dv)
 				}
+				// both clients against the world itself (two equally stale clients must not pass):
+				// wildcard types hold exactly the world; a subscribed name of an always-answered type
+				// holds its current version (0 when it does not exist); found-only types hold what exists
+				wv, wok := e.world[t][n]
+				subscribedTo := sets.New(e.dc.ty[t].sub...).Contains(n)
+				switch genClass[t] {
+				case "wild":
+					if dok != wok || (wok && dv != wv) {
+						verdict = fmt.Sprintf("FAIL delta-ne-world op=%d type=%s name=%s world=%v/%d delta=%v/%d", idx-1, t, n, wok, wv, dok, dv)
+					}
+				case "named":
+					if subscribedTo && (!dok || dv != wv) {
+						verdict = fmt.Sprintf("FAIL delta-ne-world op=%d type=%s name=%s world=%v/%d delta=%v/%d", idx-1, t, n, wok, wv, dok, dv)
+					}
+				case "found":
+					if subscribedTo && wok && (!dok || dv != wv) {
+						verdict = fmt.Sprintf("FAIL delta-ne-world op=%d type=%s name=%s world=%v/%d delta=%v/%d", idx-1, t, n, wok, wv, dok, dv)
+					}
+				}
 			}
 		}
 	}
